@@ -11,6 +11,7 @@ CONSTANTS
   PfReserve = 0
   PfMax = 2
   Eager = FALSE
+  Journaling = FALSE
 CHECK_DEADLOCK FALSE
 INVARIANTS
   NoPanic
@@ -41,5 +42,6 @@ INVARIANTS
   C13_CompletedOnce
   C14_AbortAllOnExceed
   C14_ExceededStopped
+  C14_NoAbortWithin
   C05_MnExclusive
   C05_MnWorkersIdle
